@@ -209,21 +209,30 @@ def _same(supplied, got, col, typ):
     return got == supplied and type(got) is type(supplied)
 
 
-def nan_batch(sp):
+def nan_batch(sp, big=False):
     """An accepted batch mixing NaN with finite values in a float column: filtered scans (every operator) still return what the
-    unfiltered rows say (no accepted append can make later scans mis-filter)."""
+    unfiltered rows say (no accepted append can make later scans mis-filter).  big: ONE append of 2100 records (the writer handles
+    records in chunks of 1000) with the NaN in the middle chunk."""
     from vf.oracles.sql3v import filter_value, matches
     S3 = Schema(schema_id=1, fields=[{"id": 1, "name": "a", "type": "long", "required": True}, {"id": 2, "name": "x", "type": "double", "required": False}])
     with Env(sp, rig="L", clock="tick") as e:
         t = e.table(schema=S3)
         nan = float("nan")
-        batches = [[{"a": 1, "x": nan}, {"a": 2, "x": 0.5}], [{"a": 3, "x": 0.5}, {"a": 4, "x": 0.5}], [{"a": 5, "x": nan}], [{"a": 6, "x": 7.0}, {"a": 7, "x": nan}, {"a": 8, "x": 9.0}]]
+        if big:
+            layout = sp.choose(2, name="layout")
+            if layout == 0:   # chunk 0: 0.0..0.9, chunk 1: NaN + values far above, chunk 2: 0.5
+                xs = [(i % 10) / 10.0 for i in range(1000)] + [nan if i == 500 else 2000.0 + i for i in range(1000)] + [0.5] * 100
+            else:             # everything 0.5 except one NaN in chunk 1
+                xs = [0.5] * 1000 + [nan if i == 700 else 0.5 for i in range(1000)] + [0.5] * 100
+            batches = [[{"a": i, "x": x} for i, x in enumerate(xs)], [{"a": 5000, "x": 1.0}]]
+        else:
+            batches = [[{"a": 1, "x": nan}, {"a": 2, "x": 0.5}], [{"a": 3, "x": 0.5}, {"a": 4, "x": 0.5}], [{"a": 5, "x": nan}], [{"a": 6, "x": 7.0}, {"a": 7, "x": nan}, {"a": 8, "x": 9.0}]]
         for b in batches:
             t.append_records(b)
         rows = [r for b in batches for r in b]
         ops = ["==", "!=", "<", "<=", ">", ">=", "in", "not_in", "is_null", "is_not_null"]
         op = ops[sp.choose(len(ops), name="op")]
-        lit = [0.5, 7.0, 8.0][sp.choose(3, name="literal")]
+        lit = ([0.5, 2500.0, 1.0] if big else [0.5, 7.0, 8.0])[sp.choose(3, name="literal")]
         val = [lit] if op in ("in", "not_in") else lit
         exp = sorted(r["a"] for r in rows if matches(op, r["x"], val))
         got = sorted(r["a"] for r in e.table().scan(filter={"x": filter_value(op, val)}))
@@ -400,6 +409,8 @@ def obligations(tier):
                           weight=3))
     obs.append(Ob("c.nan_batch", "vf.props.c11:nan_batch", {"_must_reach": ["ran"]}, timeout=T,
                   bounds="accepted batches mixing NaN and finite doubles; 10 operators x 3 literals on filtered scans", weight=2))
+    obs.append(Ob("c.nan_batch.big", "vf.props.c11:nan_batch", {"big": True, "_must_reach": ["ran"]}, timeout=T,
+                  bounds="ONE accepted append of 2100 records (writer chunks of 1000) with a NaN in the middle chunk, 2 layouts; 10 operators x 3 literals", weight=3))
     obs.append(Ob("d.append_files", "vf.props.c11:append_file_outcome", {"_must_reach": ["ran"]}, timeout=T,
                   bounds=f"pre-built parquet file with each footer-schema deviation ({len(FILE_VARIANTS)})", weight=3))
     return obs
